@@ -322,7 +322,13 @@ func c14Run(t *testing.T, sc Scenario, res *Result) {
 		}
 	} else {
 		for s := 0; s < 12; s++ {
-			_, o := rapid.VerifRecord(mix(sc.Seed, uint64(s)), prop)
+			done := make(chan struct{})
+			var o rapid.VerifOutcome
+			go func() {
+				defer close(done)
+				_, o = rapid.VerifRecord(mix(sc.Seed, uint64(s)), prop)
+			}()
+			waitOrDie(done, "a test case with concurrent goroutines")
 			outcomes = append(outcomes, outcome{o.Kind, o.Msg})
 		}
 		for i, cs := range cases {
